@@ -1175,10 +1175,15 @@ func c03R6(p *core.Program, r *core.Report, applies []*ssa.Function) {
 					if c, isC := e.(*ssa.Const); isC && c.Value != nil && c.Value.String() == "false" {
 						continue
 					}
+					if isNotEqualOf(e, field) {
+						continue // the reported flag is itself the negated comparison
+					}
 					trueBlocks = append(trueBlocks, v.Block().Preds[i])
 				}
 			default:
-				trueBlocks = append(trueBlocks, b)
+				if !isNotEqualOf(v, field) {
+					trueBlocks = append(trueBlocks, b)
+				}
 			}
 			for _, tb := range trueBlocks {
 				confirmed := false
@@ -1209,4 +1214,18 @@ func c03R6(p *core.Program, r *core.Report, applies []*ssa.Function) {
 			core.FuncName(ap)+" empties Contact."+field.Name()+" with "+resetCall.Name()+" and rebuilds it, so it reports a change whenever the list was not empty: "+bad+" — setting the list to what it already holds reports `modified` and emits a change event every time")
 	}
 	r.Require("reset_and_rebuild_applies", n, 1)
+}
+
+// isNotEqualOf: v is !X.Equal(Y) on values of the field's list type.
+func isNotEqualOf(v ssa.Value, field *types.Var) bool {
+	u, ok := v.(*ssa.UnOp)
+	if !ok || u.Op != token.NOT {
+		return false
+	}
+	c, ok := u.X.(*ssa.Call)
+	if !ok || len(c.Call.Args) == 0 {
+		return false
+	}
+	o := core.CalleeObj(&c.Call)
+	return o != nil && o.Name() == "Equal" && types.Identical(c.Call.Args[0].Type(), field.Type())
 }
